@@ -34,6 +34,13 @@ try:
         if ap.returncode != 0:
             print(prop, k, "PATCH DOES NOT APPLY to current HEAD:", ap.stderr[:300]); meta["applies"] = False
             json.dump(meta, open(os.path.join(out, "meta.json"), "w"), indent=1); continue
+        if "_tau_leap.pyx" in open(diff).read():
+            subprocess.run(["/venv/bin/python", "-c", "from setuptools import setup, Extension; from Cython.Build import cythonize; import numpy; "
+                            "setup(script_args=['build_ext','--inplace'], ext_modules=cythonize([Extension('pygom.model._tau_leap', ['src/pygom/model/_tau_leap.pyx'], include_dirs=[numpy.get_include()])]))"],
+                           cwd=wt, capture_output=True, text=True)
+            for so in glob.glob(os.path.join(wt, "pygom/model/_tau_leap*.so")) + glob.glob(os.path.join(wt, "build/lib*/pygom/model/_tau_leap*.so")):
+                shutil.copy(so, os.path.join(wt, "src/pygom/model/"))
+            meta["pyx_rebuilt_for_demo"] = True
         rc1, o1 = demo(os.path.join(out, "demo.py"))
         res = {}
         for c in checks:
@@ -42,7 +49,7 @@ try:
                       "summary": (r.stdout.splitlines() or [""])[-1]}
         tests = None
         if run_tests:
-            t = subprocess.run(["/venv/bin/python", "-m", "pytest", "-q", "-p", "no:cacheprovider", "--timeout=900", "tests/"],
+            t = subprocess.run(["/venv/bin/python", "-m", "pytest", "-q", "-p", "no:cacheprovider", "--timeout=900", "-n", os.environ.get("SEED_TEST_PROCS", "6"), "tests/"],
                                cwd=wt, env=env, capture_output=True, text=True)
             tests = {"exit": t.returncode, "tail": t.stdout.strip().splitlines()[-1:]}
         meta.update({"property": prop, "verified_by_main_session": {"demo_without_change_exit": rc0, "demo_with_change_exit": rc1,
